@@ -107,7 +107,14 @@ func modDefault(ctx *Ctx, buf *any, val any, args []any) (err error) {
 		empty = a == 0
 	case *vector.Node:
 		node := val.(*vector.Node)
-		empty = node.Type() == vector.TypeNull || node.Limit() == 0
+		switch node.Type() {
+		case vector.TypeNull:
+			empty = true
+		case vector.TypeObj, vector.TypeArr:
+			empty = node.Limit() == 0
+		default:
+			empty = len(node.Bytes()) == 0
+		}
 	default:
 		empty = false
 	}
